@@ -24,8 +24,9 @@ import (
 
 type stubEntry struct {
 	body         []byte
-	cacheControl string
-	fetches      int64 // atomic
+	cacheControl string        // "" = no Cache-Control header at all
+	delay        time.Duration // artificial latency, so that loads of one URL overlap
+	fetches      int64         // atomic
 }
 
 // stubTransport serves the ctxload context bytes for known URLs and 404 for
@@ -105,6 +106,17 @@ func (c *ipfsCliStub) Cat(u string) (io.ReadCloser, error) {
 	return io.NopCloser(bytes.NewReader(b)), nil
 }
 
+// slowURLs: origins whose responses are not cacheable or short-lived, served with a small latency
+// so that many goroutines have a load of the same URL in flight at the same time.  Every load of
+// a healthy origin must succeed and return the origin's document, exactly as a sequential load.
+var slowURLs = []struct{ url, cc string }{
+	{"https://origin.example.org/c20/no-store.jsonld", "no-store"},
+	{"https://origin.example.org/c20/no-cache.jsonld", "no-cache"},
+	{"https://origin.example.org/c20/private.jsonld", "private, max-age=0"},
+	{"https://origin.example.org/c20/no-freshness.jsonld", ""},
+	{"https://origin.example.org/c20/max-age-1.jsonld", "max-age=1"},
+}
+
 func cacheControlFor(u string) string {
 	switch u {
 	case ctxload.URLKYCv101:
@@ -128,6 +140,12 @@ func newStub(raw *ctxload.Loader) (*stubTransport, error) {
 	for _, d := range ipfsDocs {
 		s.known[d.gatewayURL()] = &stubEntry{body: raw.Raw(d.src), cacheControl: "max-age=3600"}
 	}
+	for i, su := range slowURLs {
+		s.known[su.url] = &stubEntry{body: raw.Raw(knownURLs[i%len(knownURLs)]), cacheControl: su.cc,
+			delay: time.Duration(6+3*i) * time.Millisecond}
+	}
+	s.known[ctxload.URLKYCv101].delay = 8 * time.Millisecond         // no-store
+	s.known[ctxload.URLDeliveryAddress].delay = 5 * time.Millisecond // max-age=0
 	return s, nil
 }
 
@@ -147,9 +165,14 @@ func (s *stubTransport) RoundTrip(req *http.Request) (*http.Response, error) {
 		}, nil
 	}
 	atomic.AddInt64(&e.fetches, 1)
+	if e.delay > 0 {
+		time.Sleep(e.delay)
+	}
 	h := http.Header{}
 	h.Set("Content-Type", "application/ld+json")
-	h.Set("Cache-Control", e.cacheControl)
+	if e.cacheControl != "" {
+		h.Set("Cache-Control", e.cacheControl)
+	}
 	return &http.Response{
 		Status: "200 OK", StatusCode: http.StatusOK,
 		Proto: "HTTP/1.1", ProtoMajor: 1, ProtoMinor: 1,
